@@ -371,9 +371,13 @@ impl AstVisitor<'_> {
                 for variable in &closure.variables {
                     state.mark_identifier_pending_usage(&variable.node, &variable.span);
                 }
+                // The closure block is visited at the current level: restore the expectation of
+                // that level afterwards, since sibling expressions (array items, predicate
+                // expressions) are visited at the same level.
+                let expecting_result = !state.is_unused();
                 state.mark_level_as_expecting_result();
                 self.visit_block(&closure.block, state);
-                state.mark_level_as_not_expecting_result();
+                state.expecting_result.insert(state.level, expecting_result);
             } else if state.is_unused() {
                 state.append_diagnostic(
                     format!("unused result for function call `{function_call}`"),
